@@ -149,6 +149,8 @@ pub struct Exec<'p> {
     writers: Vec<Option<(Metric, std::rc::Rc<dyn std::any::Any>)>>,
     /// cfg.reuse_builder: one long-lived ArroyBuilder per index slot
     long_builders: std::collections::HashMap<usize, LongBuilder>,
+    /// cfg.default_tmp_unusable (changed only here, before the run's first step, and restored on drop)
+    _tmp_guard: Option<TmpdirGuard>,
     use_long_builder: bool,
 }
 
@@ -239,6 +241,7 @@ impl<'p> Exec<'p> {
             last_mem_hint: None,
             writers: (0..n).map(|_| None).collect(),
             long_builders: Default::default(),
+            _tmp_guard: if plan.cfg.default_tmp_unusable && plan.cfg.private_tmpdir { Some(TmpdirGuard::new(&workdir.join("no-such-tmp"))) } else { None },
             use_long_builder: false,
         };
         ex.open_env();
@@ -292,6 +295,7 @@ impl<'p> Exec<'p> {
             last_mem_hint: None,
             writers: (0..n).map(|_| None).collect(),
             long_builders: Default::default(),
+            _tmp_guard: None,
             use_long_builder: false,
         };
         ex.open_env();
@@ -647,7 +651,8 @@ impl<'p> Exec<'p> {
                         }
                     }
                     self.post_op(ix, before, true, "rejected append_item")?;
-                    self.check_staleness(ix)?;
+                    // "none of these failures ... makes the index demand a build"
+                    self.check_staleness_pub(ix, &["C19"])?;
                     self.op_boundary();
                     return Ok(());
                 }
@@ -703,7 +708,11 @@ impl<'p> Exec<'p> {
             }
         }
         self.check_item(ix, id)?;
-        self.check_staleness(ix)?;
+        if existed {
+            self.check_staleness(ix)?;
+        } else {
+            self.check_staleness_pub(ix, &["C19"])?;
+        }
         self.post_op(ix, before, !existed, "del_item of an absent id")?;
         self.op_boundary();
         Ok(())
@@ -790,7 +799,7 @@ impl<'p> Exec<'p> {
                 return Err(Stop::Unevaluable("bad add panicked".into()));
             }
         }
-        self.check_staleness(ix)?;
+        self.check_staleness_pub(ix, &["C19"])?;
         self.post_op(ix, before, true, "add_item with a wrong length")?;
         Ok(())
     }
@@ -1444,6 +1453,10 @@ impl<'p> Exec<'p> {
                     if n_trees.is_some() && before_model.last_n_trees != n_trees {
                         props.push("C15");
                     }
+                    // "after building, the index is valid ... under the new metric": the build a metric change demands
+                    if self.metric_changed[ix] {
+                        props.push("C18");
+                    }
                     let k = if kind == "TickBudget" { "tick_budget" } else { "build_error" };
                     self.report(&props, k, format!("fault-free build of index {index} (n_trees {n_trees:?} split_after {split_after:?} mem {mem:?}, {} items) failed: {kind}: {msg}", before_model.items.len()))?;
                     return Err(Stop::Unevaluable(format!("fault-free build failed: {kind}")));
@@ -1483,6 +1496,16 @@ impl<'p> Exec<'p> {
         self.check_store_full(ix)?;
         let d = self.dump_current();
         let dec = self.decode_check(&d)?;
+        // C16: the leaf headers the layout prescribes right after a build
+        if self.world.indexes[ix].accurate {
+            let im = &self.world.indexes[ix];
+            if let Some(di) = dec.get(&im.index) {
+                if let Err(e) = decode::check_leaf_headers(di, im.metric) {
+                    let index = im.index;
+                    self.report(&["C16"], "leaf_header", format!("index {index}: {e}"))?;
+                }
+            }
+        }
         self.structural_and_queries(ix, &d, &dec, true)?;
         // C15: tree count
         let im = self.world.indexes[ix].clone();
@@ -1832,6 +1855,28 @@ impl<'p> Exec<'p> {
 pub fn harness_error(msg: &str) -> ! {
     eprintln!("HARNESS-ERROR {msg}");
     std::process::exit(2);
+}
+
+/// While alive, the process default temp directory (TMPDIR) points at a path that does not exist.
+pub struct TmpdirGuard {
+    saved: Option<std::ffi::OsString>,
+}
+
+impl TmpdirGuard {
+    fn new(unusable: &Path) -> TmpdirGuard {
+        let saved = std::env::var_os("TMPDIR");
+        std::env::set_var("TMPDIR", unusable);
+        TmpdirGuard { saved }
+    }
+}
+
+impl Drop for TmpdirGuard {
+    fn drop(&mut self) {
+        match self.saved.take() {
+            Some(v) => std::env::set_var("TMPDIR", v),
+            None => std::env::remove_var("TMPDIR"),
+        }
+    }
 }
 
 /// A builder that outlives its transactions (an application that configures one `ArroyBuilder` and
